@@ -185,6 +185,9 @@ func VerifC04Acks() {
 			vAssume(off >= -1)
 			vAssume(off <= next-1)
 			if r != replicas[0] {
+				// within one leader epoch a follower only appends: what it
+				// reports never goes down
+				vAssume(off >= vC04Held[r])
 				vC04Held[r] = off
 			}
 			p.updateISRLatestOffset(r, off)
